@@ -7,7 +7,8 @@ CHECKS["C20"] = dict(
           "valid signatures for n in 1..13 and the three schemes, verified by another replica, and the same certificates with q-1 real "
           "signatures PADDED to q (and to n) signer labels that have no signature behind them (BLS: bits in the participants field; "
           "ECDSA/EdDSA: entries without bytes; an aggregate certificate lists no message for them) - the count reaches the threshold, "
-          "the signatures do not: refused; collector thresholds "
+          "the signatures do not: refused; likewise (ECDSA/EdDSA) q-1 real signatures plus 1 / n-(q-1) ENTRIES repeating them, in three arrangements "
+          "(appended in order, each next to its original, appended in reverse) - the entries reach the threshold, the replicas do not: refused; collector thresholds "
           "(timeout collector, vote collector, Kauri) are exercised at q-1/q for n in {4,7} by the C08/C09 harness units. "
           "Sampled (TestC20ConfigHistory): histories of up to 30 AddReplica (new and known ids out of 13) / ReplicaCount / QuorumSize "
           "operations and timeout-certificate checks with q-1 and q signatures through an Authority that shares the configuration: "
